@@ -170,8 +170,7 @@ void lemma_add_compound_data(void)
 #ifndef SHAPE
 #define SHAPE 0
 #endif
-/* the shapes after the marker merge a parenthesised group into a non-empty list: no back end finishes on them (attempted in the thorough tier) */
-static const char *const g_shapes[] = { "A", "AB", "B3A", "AB2A", "(AB)2", "AbCdB3", "((A))", /*ATTEMPT*/ "A(AB)", "C(BA)", "A(BC)2" };
+static const char *const g_shapes[] = { "A", "AB", "B3A", "AB2A", "(AB)2", "AbCdB3", "((A))", "A(AB)", "C(BA)", "A(BC)2", "(AB)(CA)3", "B(A(CD)2)3", "Ab2(CdA)", "D(CA)B(DA)" /*ATTEMPT*/ };
 int g_z[4], g_known[4], g_zero_seen, g_unknown_seen;
 static struct MendelElement g_me;
 void *bsearch(const void *key, const void *base, size_t n, size_t sz, int (*cmp)(const void *, const void *))
@@ -196,19 +195,32 @@ void qsort(void *base, size_t n, size_t sz, int (*cmp)(const void *, const void 
   __CPROVER_assert(sz == sizeof(struct compoundAtom), "qsort on the element list");
   for (i = 1; i < n; i++) for (j = i; j > 0; j--) if (cmp(&v[j - 1], &v[j]) > 0) { t = v[j - 1]; v[j - 1] = v[j]; v[j] = t; }
 }
-/* realloc, assumed contract in executable form, typed by the two growth patterns of the scanner (one pointer / one
- * element record at a time; asserted): an element-wise copy keeps the constant formula text visible to the symbolic
- * execution, which CBMC's own model (whole-array copy) does not                                                      */
-void *realloc(void *p, size_t n)
+/* realloc, assumed contract in executable form.  The call sites of xraylib-parser.c pass the element size of their pointer
+ * argument (harness/realloc_typed.h, force-included): an element-wise typed copy keeps the constant formula text visible
+ * to the symbolic execution, which CBMC's own model (whole-array copy) does not                                          */
+void *xrlv_realloc(void *p, size_t n, size_t elem)
 {
-  size_t old, i; void *q;
-  if (p == NULL) return malloc(n);
-  old = __CPROVER_OBJECT_SIZE(p);
-  q = malloc(n); __CPROVER_assume(q != NULL);
-  if (n == old || n - old == sizeof(char *)) { for (i = 0; i < old / sizeof(char *); i++) ((char **)q)[i] = ((char **)p)[i]; }
-  else {
-    __CPROVER_assert(n - old == sizeof(struct compoundAtom), "harness: realloc grows by one pointer or one element record");
-    for (i = 0; i < old / sizeof(struct compoundAtom); i++) ((struct compoundAtom *)q)[i] = ((struct compoundAtom *)p)[i];
+  size_t i; void *q;
+  /* one typed allocation site per possible length: objects of constant size and known element type stay field-wise scalars
+   * (an object of symbolic size becomes an unbounded byte array and every record access a byte-level extraction)         */
+  if (elem == sizeof(char *)) {
+    __CPROVER_assert(n % sizeof(char *) == 0 && n >= sizeof(char *) && n <= 8 * sizeof(char *), "harness: pointer lists of 1..8 entries");
+    if (n == 1 * sizeof(char *)) q = malloc(1 * sizeof(char *)); else if (n == 2 * sizeof(char *)) q = malloc(2 * sizeof(char *));
+    else if (n == 3 * sizeof(char *)) q = malloc(3 * sizeof(char *)); else if (n == 4 * sizeof(char *)) q = malloc(4 * sizeof(char *));
+    else if (n == 5 * sizeof(char *)) q = malloc(5 * sizeof(char *)); else if (n == 6 * sizeof(char *)) q = malloc(6 * sizeof(char *));
+    else if (n == 7 * sizeof(char *)) q = malloc(7 * sizeof(char *)); else q = malloc(8 * sizeof(char *));
+    __CPROVER_assume(q != NULL);
+    if (p == NULL) return q;
+    for (i = 0; (i + 1) * sizeof(char *) <= n && (i + 1) * sizeof(char *) <= __CPROVER_OBJECT_SIZE(p); i++) ((char **)q)[i] = ((char **)p)[i];
+  } else {
+    __CPROVER_assert(elem == sizeof(struct compoundAtom), "harness: realloc of pointer lists and element lists only");
+    __CPROVER_assert(n % sizeof(struct compoundAtom) == 0 && n >= sizeof(struct compoundAtom) && n <= 5 * sizeof(struct compoundAtom), "harness: element lists of 1..5 records");
+    if (n == 1 * sizeof(struct compoundAtom)) q = malloc(1 * sizeof(struct compoundAtom)); else if (n == 2 * sizeof(struct compoundAtom)) q = malloc(2 * sizeof(struct compoundAtom));
+    else if (n == 3 * sizeof(struct compoundAtom)) q = malloc(3 * sizeof(struct compoundAtom)); else if (n == 4 * sizeof(struct compoundAtom)) q = malloc(4 * sizeof(struct compoundAtom));
+    else q = malloc(5 * sizeof(struct compoundAtom));
+    __CPROVER_assume(q != NULL);
+    if (p == NULL) return q;
+    for (i = 0; (i + 1) * sizeof(struct compoundAtom) <= n && (i + 1) * sizeof(struct compoundAtom) <= __CPROVER_OBJECT_SIZE(p); i++) ((struct compoundAtom *)q)[i] = ((struct compoundAtom *)p)[i];
   }
   free(p);
   return q;
